@@ -693,9 +693,10 @@ proof fn lemma_off_end(s: Seq<char>, k: int)
 { if k < s.len() { lemma_off_mono(s, k, s.len() as int); axiom_l8(s[k]); lemma_off_mono(s, k + 1, s.len() as int); assert(off(s, k + 1) == off(s, k) + l8(s[k])); } }
 // "no character or marker is lost": (finished lines ++ current line ++ word) has the same non-space content before and after.
 // Opaque so that callers which only need the width invariant (add_text) do not pay for the sequence algebra.
-#[verifier::opaque]
+// all non-space content of a block: finished lines, current line, and the word being built (`content` is opaque)
+spec fn all_ns<T>(t: Seq<TaggedLine<T>>, l: Seq<TaggedLineElement<T>>, w: Seq<TaggedLineElement<T>>) -> Seq<CItem<T>> { content(t, l) + ns(flat(w)) }
 spec fn keeps_all<T>(t0: Seq<TaggedLine<T>>, l0: Seq<TaggedLineElement<T>>, w0: Seq<TaggedLineElement<T>>, t1: Seq<TaggedLine<T>>, l1: Seq<TaggedLineElement<T>>, w1: Seq<TaggedLineElement<T>>) -> bool {
-    content(t1, l1) + ns(flat(w1)) =~= content(t0, l0) + ns(flat(w0))
+    all_ns(t1, l1, w1) =~= all_ns(t0, l0, w0)
 }
 // ---- L2 of add_text: which characters reach the block, in which order, under which tag (C03, C09, C16) -------------------
 // R13: `c.is_whitespace()` -> char_is_ws(c) (trusted name for core's char::is_whitespace, so that it has a spec-level counterpart)
@@ -709,57 +710,39 @@ proof fn lemma_kept_step(s: Seq<char>, i: int)
     requires 0 <= i < s.len(),
     ensures kept(s.take(i + 1)) =~= (if keepc(s[i]) { kept(s.take(i)).push(s[i]) } else { kept(s.take(i)) }),
 { assert(s.take(i + 1).drop_last() =~= s.take(i)); assert(s.take(i + 1).last() == s[i]); }
-// all non-space content of a block: finished lines, current line, and the word being built
-spec fn all_ns<T>(t: Seq<TaggedLine<T>>, l: Seq<TaggedLineElement<T>>, w: Seq<TaggedLineElement<T>>) -> Seq<CItem<T>> { content(t, l) + ns(flat(w)) }
 // S is the characters cs, in order, each tagged with one of the two tags handed to add_text
+#[verifier::opaque]
 spec fn tagged_by<T>(S: Seq<CItem<T>>, cs: Seq<char>, t1: T, t2: T) -> bool {
     S.len() == cs.len() && forall|i: int| 0 <= i < S.len() ==> ((#[trigger] S[i]) matches CItem::Ch(c, t) && c == cs[i] && (t == t1 || t == t2))
-}
-#[verifier::opaque]
-spec fn l2<T>(t0: Seq<TaggedLine<T>>, l0: Seq<TaggedLineElement<T>>, w0: Seq<TaggedLineElement<T>>, t1: Seq<TaggedLine<T>>, l1: Seq<TaggedLineElement<T>>, w1: Seq<TaggedLineElement<T>>,
-             acc: Seq<CItem<T>>, cs: Seq<char>, m: T, w: T) -> bool {
-    all_ns(t1, l1, w1) =~= all_ns(t0, l0, w0) + acc && tagged_by(acc, cs, m, w)
 }
 // all_ns(after) == all_ns(before) ++ acc for some acc that is the characters cs, in order, tagged m or w
 spec fn appended<T>(t0: Seq<TaggedLine<T>>, l0: Seq<TaggedLineElement<T>>, w0: Seq<TaggedLineElement<T>>, t1: Seq<TaggedLine<T>>, l1: Seq<TaggedLineElement<T>>, w1: Seq<TaggedLineElement<T>>,
                    cs: Seq<char>, m: T, w: T) -> bool {
-    exists|acc: Seq<CItem<T>>| #[trigger] l2(t0, l0, w0, t1, l1, w1, acc, cs, m, w)
+    exists|acc: Seq<CItem<T>>| #[trigger] tagged_by(acc, cs, m, w) && all_ns(t1, l1, w1) =~= all_ns(t0, l0, w0) + acc
 }
-proof fn lemma_l2_init<T>(t: Seq<TaggedLine<T>>, l: Seq<TaggedLineElement<T>>, w: Seq<TaggedLineElement<T>>, m: T, wt: T)
-    ensures l2(t, l, w, t, l, w, Seq::<CItem<T>>::empty(), Seq::<char>::empty(), m, wt),
-{ reveal(l2); }
-proof fn lemma_l2_keeps<T>(t0: Seq<TaggedLine<T>>, l0: Seq<TaggedLineElement<T>>, w0: Seq<TaggedLineElement<T>>, ta: Seq<TaggedLine<T>>, la: Seq<TaggedLineElement<T>>, wa: Seq<TaggedLineElement<T>>,
-        tb: Seq<TaggedLine<T>>, lb: Seq<TaggedLineElement<T>>, wb: Seq<TaggedLineElement<T>>, acc: Seq<CItem<T>>, cs: Seq<char>, m: T, w: T)
-    requires l2(t0, l0, w0, ta, la, wa, acc, cs, m, w), keeps_all(ta, la, wa, tb, lb, wb),
-    ensures l2(t0, l0, w0, tb, lb, wb, acc, cs, m, w),
-{ reveal(l2); reveal(keeps_all); }
-proof fn lemma_l2_line<T>(t0: Seq<TaggedLine<T>>, l0: Seq<TaggedLineElement<T>>, w0: Seq<TaggedLineElement<T>>, ta: Seq<TaggedLine<T>>, la: Seq<TaggedLineElement<T>>,
-        tb: Seq<TaggedLine<T>>, lb: Seq<TaggedLineElement<T>>, wv: Seq<TaggedLineElement<T>>, acc: Seq<CItem<T>>, cs: Seq<char>, m: T, w: T)
-    requires l2(t0, l0, w0, ta, la, wv, acc, cs, m, w), content(tb, lb) =~= content(ta, la),
-    ensures l2(t0, l0, w0, tb, lb, wv, acc, cs, m, w),
-{ reveal(l2); }
-proof fn lemma_l2_space<T>(t0: Seq<TaggedLine<T>>, l0: Seq<TaggedLineElement<T>>, w0: Seq<TaggedLineElement<T>>, t: Seq<TaggedLine<T>>, la: Seq<TaggedLineElement<T>>,
-        lb: Seq<TaggedLineElement<T>>, wv: Seq<TaggedLineElement<T>>, tg: T, acc: Seq<CItem<T>>, cs: Seq<char>, m: T, w: T)
-    requires l2(t0, l0, w0, t, la, wv, acc, cs, m, w), flat(lb) =~= flat(la).push(CItem::Ch(' ', tg)),
-    ensures l2(t0, l0, w0, t, lb, wv, acc, cs, m, w),
+// a space pushed onto the current line does not change the non-space content
+proof fn lemma_space_pushed<T>(t: Seq<TaggedLine<T>>, la: Seq<TaggedLineElement<T>>, lb: Seq<TaggedLineElement<T>>, tg: T)
+    requires flat(lb) =~= flat(la).push(CItem::Ch(' ', tg)),
+    ensures content(t, lb) =~= content(t, la),
 {
-    reveal(l2);
     let extra = seq![CItem::Ch(' ', tg)];
     assert(flat(lb) =~= flat(la) + extra);
     lemma_content_append(t, la, lb, extra);
+    reveal_with_fuel(ns, 2);
     assert(extra.drop_last() =~= Seq::<CItem<T>>::empty());
+    assert(extra.last() == CItem::Ch(' ', tg) && is_sp(extra.last()));
     assert(ns(extra) =~= Seq::<CItem<T>>::empty());
 }
-proof fn lemma_l2_char<T>(t0: Seq<TaggedLine<T>>, l0: Seq<TaggedLineElement<T>>, w0: Seq<TaggedLineElement<T>>, t: Seq<TaggedLine<T>>, l: Seq<TaggedLineElement<T>>,
-        wa: Seq<TaggedLineElement<T>>, wb: Seq<TaggedLineElement<T>>, c: char, tg: T, acc: Seq<CItem<T>>, cs: Seq<char>, m: T, w: T)
-    requires l2(t0, l0, w0, t, l, wa, acc, cs, m, w), flat(wb) =~= flat(wa).push(CItem::Ch(c, tg)), c != ' ', tg == m || tg == w,
-    ensures l2(t0, l0, w0, t, l, wb, acc.push(CItem::Ch(c, tg)), cs.push(c), m, w),
+// a non-space character pushed onto the word extends the non-space content by exactly that character under that tag
+proof fn lemma_char_pushed<T>(wa: Seq<TaggedLineElement<T>>, wb: Seq<TaggedLineElement<T>>, c: char, tg: T, acc: Seq<CItem<T>>, cs: Seq<char>, m: T, w: T)
+    requires flat(wb) =~= flat(wa).push(CItem::Ch(c, tg)), c != ' ', tg == m || tg == w, tagged_by(acc, cs, m, w),
+    ensures ns(flat(wb)) =~= ns(flat(wa)).push(CItem::Ch(c, tg)), tagged_by(acc.push(CItem::Ch(c, tg)), cs.push(c), m, w),
 {
-    reveal(l2);
+    reveal(tagged_by);
     assert(flat(wb).drop_last() =~= flat(wa));
-    assert(ns(flat(wb)) =~= ns(flat(wa)).push(CItem::Ch(c, tg)));
-    assert(all_ns(t, l, wb) =~= all_ns(t, l, wa).push(CItem::Ch(c, tg)));
+    assert(flat(wb).last() == CItem::Ch(c, tg));
 }
+proof fn lemma_tagged_empty<T>(m: T, w: T) ensures tagged_by(Seq::<CItem<T>>::empty(), Seq::<char>::empty(), m, w) { reveal(tagged_by); }
 // a line fits (C02): at most `width` columns; with overflow allowed the only wider line is a single over-wide character (C11)
 spec fn fits<T>(l: TaggedLine<T>, width: usize, allow: bool) -> bool { l.len <= width || (allow && l.len <= 2) }
 spec fn lines_wf<T>(t: Seq<TaggedLine<T>>) -> bool { forall|i: int| 0 <= i < t.len() ==> (#[trigger] t[i]).wf() }
@@ -855,7 +838,6 @@ impl<T: Clone + Eq + Debug + Default> WrappedBlock<T> {
             assert(1 * self.wslen == self.wslen) by (nonlinear_arith); //@w
             if no_str(self.word.v@) { lemma_no_str_cwid(self.word.v@); } //@w
             lemma_flat_empty_te::<T>(); //@w
-            reveal(keeps_all); //@w
         } //@w
         let ghost c0 = content(self.text@, self.line.v@); //@w
 
@@ -1279,11 +1261,13 @@ impl<T: Clone + Eq + Debug + Default> WrappedBlock<T> {
         let mut tag = if self.pre_wrapped { wrap_tag } else { main_tag };
         let ghost mut acc: Seq<CItem<T>> = Seq::empty(); //@w
         let ghost mut cs: Seq<char> = Seq::empty(); //@w
-        proof { lemma_l2_init(self.text@, self.line.v@, self.word.v@, *main_tag, *wrap_tag); assert(text@.take(0) =~= Seq::<char>::empty()); } //@w
+        proof { lemma_tagged_empty(*main_tag, *wrap_tag); assert(text@.take(0) =~= Seq::<char>::empty()); } //@w
+        let ghost base = all_ns(self.text@, self.line.v@, self.word.v@); //@w
         for c in it: text.chars()
             invariant //@w
                 *tag == *main_tag || *tag == *wrap_tag, cs == kept(text@.take(it.index@)), //@w
-                l2(old(self).text@, old(self).line.v@, old(self).word.v@, self.text@, self.line.v@, self.word.v@, acc, cs, *main_tag, *wrap_tag), //@w
+                base == all_ns(old(self).text@, old(self).line.v@, old(self).word.v@), tagged_by(acc, cs, *main_tag, *wrap_tag), //@w
+                all_ns(self.text@, self.line.v@, self.word.v@) =~= base + acc, //@w @C03 @C09 @C16 #content_so_far
                 self.inv(), tag_ok::<T>(), self.frame(old(self)), self.width >= 1, //@w
                 self.wslen + self.wordlen + self.width + self.word.len + 4 * (text@.len() - it.index@) <= 0x4000_0000_0000_0000, //@w
                 self.total() + 4 * (text@.len() - it.index@) <= old(self).total() + 4 * text@.len(), //@w
@@ -1302,7 +1286,6 @@ impl<T: Clone + Eq + Debug + Default> WrappedBlock<T> {
             let ghost pre = *self; //@w
             if char_is_ws(c) && self.wordlen > 0 {
                 self.flush_word(ws_mode)?;
-                proof { lemma_l2_keeps(old(self).text@, old(self).line.v@, old(self).word.v@, pre.text@, pre.line.v@, pre.word.v@, self.text@, self.line.v@, self.word.v@, acc, cs, *main_tag, *wrap_tag); } //@w
             }
             let ghost mid = *self; //@w
 
@@ -1314,7 +1297,6 @@ impl<T: Clone + Eq + Debug + Default> WrappedBlock<T> {
                             // End of line.  We have no words here, so just finish
                             // the line.
                             self.force_flush_line();
-                            proof { lemma_l2_line(old(self).text@, old(self).line.v@, old(self).word.v@, mid.text@, mid.line.v@, self.text@, self.line.v@, self.word.v@, acc, cs, *main_tag, *wrap_tag); } //@w
                             self.wslen = 0;
                             self.spacetag = None;
                             self.pre_wrapped = false;
@@ -1332,7 +1314,7 @@ impl<T: Clone + Eq + Debug + Default> WrappedBlock<T> {
                             let ghost pos0 = pos; //@w
                             while pos % tab_stop != 0 || !at_least_one_space
                                 invariant //@w
-                                    l2(old(self).text@, old(self).line.v@, old(self).word.v@, self.text@, self.line.v@, self.word.v@, acc, cs, *main_tag, *wrap_tag), //@w
+                                    all_ns(self.text@, self.line.v@, self.word.v@) =~= base + acc, //@w @C03 #tab_keeps_content
                                     self.inv(), tag_ok::<T>(), self.frame(old(self)), self.width >= 1, //@w
                                     self.text@.len() >= old(self).text@.len(), self.text@.take(old(self).text@.len() as int) =~= old(self).text@, //@w
                                     self.line.len <= pos, pos <= 0x4000_0000_0000_0000, tab_stop == 8, //@w
@@ -1348,13 +1330,12 @@ impl<T: Clone + Eq + Debug + Default> WrappedBlock<T> {
                                 let ghost tb = *self; //@w
                                 if pos >= self.width {
                                     self.flush_line();
-                                    proof { lemma_l2_line(old(self).text@, old(self).line.v@, old(self).word.v@, tb.text@, tb.line.v@, self.text@, self.line.v@, self.word.v@, acc, cs, *main_tag, *wrap_tag); } //@w
                                     pos = 0;
                                     proof { wrapped = true; } //@w
                                 } else {
                                     proof { axiom_cw_space(); } //@w
                                     self.line.push_char(' ', tag);
-                                    proof { lemma_l2_space(old(self).text@, old(self).line.v@, old(self).word.v@, tb.text@, tb.line.v@, self.line.v@, self.word.v@, *tag, acc, cs, *main_tag, *wrap_tag); } //@w
+                                    proof { lemma_space_pushed(self.text@, tb.line.v@, self.line.v@, *tag); } //@w
                                     pos += 1;
                                     at_least_one_space = true;
                                 }
@@ -1372,7 +1353,6 @@ impl<T: Clone + Eq + Debug + Default> WrappedBlock<T> {
                                     self.wslen = 0;
 
                                     self.flush_line();
-                                    proof { lemma_l2_line(old(self).text@, old(self).line.v@, old(self).word.v@, mid.text@, mid.line.v@, self.text@, self.line.v@, self.word.v@, acc, cs, *main_tag, *wrap_tag); } //@w
                                     if ws_mode.do_wrap() {
                                         // We're handling wrapping, so collapse
                                         self.pre_wrapped = false;
@@ -1417,8 +1397,11 @@ impl<T: Clone + Eq + Debug + Default> WrappedBlock<T> {
                     self.word.push_char(c, tag);
                     proof { //@w[
                         axiom_space_is_ws();
-                        lemma_l2_char(old(self).text@, old(self).line.v@, old(self).word.v@, mid.text@, mid.line.v@, mid.word.v@, self.word.v@, c, *tag, acc, cs, *main_tag, *wrap_tag);
-                        acc = acc.push(CItem::Ch(c, *tag));
+                        lemma_char_pushed(mid.word.v@, self.word.v@, c, *tag, acc, cs, *main_tag, *wrap_tag);
+                        let x = CItem::Ch(c, *tag);
+                        assert(all_ns(self.text@, self.line.v@, self.word.v@) =~= all_ns(mid.text@, mid.line.v@, mid.word.v@).push(x));
+                        assert((base + acc).push(x) =~= base + acc.push(x));
+                        acc = acc.push(x);
                         cs = cs.push(c);
                     } //@w]
                 }
@@ -1446,7 +1429,6 @@ impl<T: Clone + Eq + Debug + Default> WrappedBlock<T> {
             final(self).text@.len() >= old(self).text@.len(), final(self).text@.take(old(self).text@.len() as int) =~= old(self).text@, //@w @C03 #flush_keeps_emitted_lines
             r.is_ok() ==> keeps_all(old(self).text@, old(self).line.v@, old(self).word.v@, final(self).text@, final(self).line.v@, final(self).word.v@), //@w @C03 @C14 #flush_keeps_content
     {
-        proof { reveal(keeps_all); } //@w
         self.flush_word(WhiteSpace::Normal)?;
         self.flush_line();
         Ok(())
